@@ -1586,6 +1586,14 @@ class IH5StoreEngine:
                     continue
             op = dgen[i].gen(shadows[i])
             op["rec"] = i
+            if op["op"] == "set_ds" and g.random() < 0.04:
+                # an unstorable value: the assignment fails on the plain tree without leaving
+                # anything behind (no intermediate groups, deleted data stays deleted)
+                if g.random() < 0.5 and shadows[i].grave:
+                    op["base"], op["path"] = "/", g.choice(shadows[i].grave).lstrip("/") + g.choice(["", "/n/m"])
+                op["val"] = ["o"]
+                emit(op)
+                continue
             if s["writable"]:
                 shadows[i].apply(op)
             emit(op)
